@@ -822,7 +822,7 @@ func (e *Engine) reportEvent(kind, label, detail string) {
 		a.Sat++
 		e.pathViol = true
 		e.res.Violations = append(e.res.Violations, &Violation{Job: e.job.ID, Harness: e.job.Harness, Args: e.job.Args,
-			Label: label, Kind: kind, Inputs: e.modelInputs(m), Detail: detail, Backend: be, Observes: append([]string{}, e.observes...)})
+			Label: label, Kind: kind, Inputs: e.modelInputs(m), Detail: detail, Backend: be, Observes: append([]string{}, e.observes...), Threads: e.job.Threads})
 	case Unsat:
 		a.Unsat++
 	default:
@@ -835,7 +835,7 @@ func (e *Engine) reportEvent(kind, label, detail string) {
 			a.KnownSat++
 			if _, ok := e.res.KnownHits[id]; !ok {
 				e.res.KnownHits[id] = &Violation{Job: e.job.ID, Harness: e.job.Harness, Args: e.job.Args, Label: label, Kind: kind,
-					Inputs: e.modelInputs(m), Detail: detail, Backend: be, Known: id}
+					Inputs: e.modelInputs(m), Detail: detail, Backend: be, Known: id, Threads: e.job.Threads}
 			}
 		} else if r == Unknown {
 			a.Unknown++
